@@ -420,10 +420,23 @@ func (v *xmlValue) UnmarshalXML(d *ixml.Decoder, start ixml.StartElement) error 
 	// buffer. This forces the encoder to redeclare any used namespaces.
 	var b bytes.Buffer
 	e := ixml.NewEncoder(&b)
+	depth := 0
 	for {
 		t, err := next(d)
 		if err != nil {
 			return err
+		}
+		if _, ok := t.(ixml.StartElement); ok {
+			depth++
+		}
+		if _, ok := t.(ixml.EndElement); ok && depth > 0 {
+			// The end of a nested element, which may have the same
+			// name as the property itself.
+			depth--
+			if err = e.EncodeToken(t); err != nil {
+				return err
+			}
+			continue
 		}
 		if e, ok := t.(ixml.EndElement); ok && e.Name == start.Name {
 			break
